@@ -40,14 +40,15 @@ BIG = open(os.path.join(HERE, 'harness', 'session_big.cpp')).read()
 def big_session_tasks(tier, prefix, msg_prefix, kinds=None):
     """more data (208 KB) than the stream buffer, container size (192 KiB / 256 KiB) above the buffer size"""
     out = []
-    for lvl, cs in (((0, 0x30000),) if tier == 'quick' else ((0, 0x30000), (6, 0x40000), (0, 0x20001))):
-        out.append(Task('%s_big.l%d_c%d' % (prefix, lvl, cs), '#define CFG_LEVEL %d\n#define CFG_CONTAINER %d\n' % (lvl, cs) + BIG,
+    for lvl, cs, inc in (((0, 0x30000, 0), (6, 40000, 1)) if tier == 'quick' else ((0, 0x30000, 0), (6, 0x40000, 0), (0, 0x20001, 0), (6, 40000, 1), (1, 0x30000, 1))):
+        out.append(Task('%s_big.l%d_c%d%s' % (prefix, lvl, cs, '_incompressible' if inc else ''),
+                        '#define CFG_LEVEL %d\n#define CFG_CONTAINER %d\n' % (lvl, cs) + ('#define INCOMPRESSIBLE 1\n' if inc else '') + BIG,
                         'h_big_session', None,
                         opts=dict(validate=False, extra=['zlib_stub.cpp'], limit_is_hang=True, max_steps=60000000, max_wall=600,
                                   msg_prefix=msg_prefix),
-                        desc='write + read session of 52 AppText objects of 4000 text bytes (208 KB, more than the 128 KiB stream '
-                             'buffer), level %d, container size %d (above the buffer size): independent container walk, header '
-                             'statistics, objects read back' % (lvl, cs),
+                        desc=('write + read session of 5 AppText objects of 50000 text bytes (250 KB, more than the 128 KiB stream ' if inc else 'write + read session of 52 AppText objects of 4000 text bytes (208 KB, more than the 128 KiB stream ') +
+                             'buffer), level %d, container size %d%s: independent container walk, header '
+                             'statistics, objects read back' % (lvl, cs, ', high-entropy payload (deflate cannot shrink it)' if inc else ' (above the buffer size)'),
                         reach=('h_big_session:end',), bounds='52 objects of 4 KB; one cooperative schedule',
                         kinds=kinds or {'assert', 'memory', 'uncaught_exception', 'terminate', 'deadlock', 'hang', 'limit', 'leak'}))
     return out
